@@ -378,13 +378,11 @@ pub fn check_c06(case: &BuildCase, run: &BuildRun) -> Option<Violation> {
         };
         if rejected && first_item_rejected {
             let c = i + 1;
-            if run.sink_ev_after[c] != run.sink_ev_after[c - 1]
-                || run.tap_calls_after[c] != run.tap_calls_after[c - 1]
-            {
+            if run.tap_calls_after[c] != run.tap_calls_after[c - 1] || run.tap_after[c] != run.tap_after[c - 1] {
                 return v(
                     "C06.H2.rejected_call_wrote_to_sink",
                     format!(
-                        "op {} was rejected yet caused {} writer calls",
+                        "op {} was rejected yet caused {} write calls on its writer",
                         i,
                         run.tap_calls_after[c] - run.tap_calls_after[c - 1]
                     ),
